@@ -28,6 +28,7 @@ type fakeRT struct {
 	pingGate gate
 	log      []string // addresses calls were sent to
 	closed   bool
+	delay    map[string]time.Duration // how long a call to the address takes (spun, not slept: the harness's quiescence test treats sleepers as blocked)
 }
 
 func (f *fakeRT) up(addr string) bool {
@@ -40,7 +41,10 @@ func (f *fakeRT) record(addr string) error {
 	f.mu.Lock()
 	f.log = append(f.log, addr)
 	up := f.health[addr]
+	d := f.delay[addr]
 	f.mu.Unlock()
+	for t0 := time.Now(); d > 0 && time.Since(t0) < d; {
+	}
 	if addr == "" || !up {
 		return rpc.ErrDial
 	}
@@ -101,6 +105,8 @@ type lbRun struct {
 	waiting  []*lbWaiter
 	closed   bool
 	current  map[string]bool // the target list in force
+	rrSet    string          // C17 round robin: the live set the window below was collected under
+	rrPicks  []string
 }
 
 type lbWaiter struct {
@@ -109,9 +115,11 @@ type lbWaiter struct {
 
 var schedCoq = map[rpc.Scheduling]string{rpc.RoundRobinScheduling: "RoundRobin", rpc.RandomScheduling: "Random", rpc.LeastTimeScheduling: "LeastTime"}
 
-func newLBRun(e *Env, sched rpc.Scheduling) *lbRun {
-	r := &lbRun{e: e, sched: sched, rt: &fakeRT{health: map[string]bool{}}, pingGen: map[*waiter]int{}, current: map[string]bool{}}
-	for i := 0; i < 5; i++ {
+func newLBRun(e *Env, sched rpc.Scheduling) *lbRun { return newLBRunN(e, sched, 5) }
+
+func newLBRunN(e *Env, sched rpc.Scheduling, naddr int) *lbRun {
+	r := &lbRun{e: e, sched: sched, rt: &fakeRT{health: map[string]bool{}, delay: map[string]time.Duration{}}, pingGen: map[*waiter]int{}, current: map[string]bool{}}
+	for i := 0; i < naddr; i++ {
 		r.addrs = append(r.addrs, fmt.Sprintf("t%d", i+1))
 	}
 	r.c = rpc.NewClient(nil)
@@ -193,6 +201,7 @@ func (r *lbRun) update(addrs []string) {
 	before, _ := r.snap()
 	r.c.Update(addrs...)
 	r.gen++
+	r.rrSet, r.rrPicks = "", nil
 	r.current = map[string]bool{}
 	for _, a := range addrs {
 		if a != "" {
@@ -205,7 +214,7 @@ func (r *lbRun) update(addrs []string) {
 // release one held check with the health the harness chooses
 func (r *lbRun) checkRet(w *waiter) {
 	addr := w.tag.(string)
-	before, _ := r.snap()
+	before, sb0 := r.snap()
 	ok := r.rt.up(addr)
 	cur := r.pingGen[w] == r.gen
 	delete(r.pingGen, w)
@@ -231,7 +240,11 @@ func (r *lbRun) checkRet(w *waiter) {
 		}
 		r.rt.mu.Unlock()
 		for i := 0; i < woken; i++ {
-			ops = append(ops, "LRescheduled 0%nat")
+			if i == 0 && r.sched == rpc.LeastTimeScheduling && sb0.ProbeAge > r.c.Tick {
+				ops = append(ops, "LRescheduledProbe 0%nat")
+			} else {
+				ops = append(ops, "LRescheduled 0%nat")
+			}
 		}
 		for _, a := range r.logSince(nlog) {
 			ops = append(ops, fmt.Sprintf("LCallDone %d %s", r.idx(a), coqBool(!r.rt.up(a))))
@@ -340,6 +353,22 @@ func (r *lbRun) route() {
 				if sb.Pos < len(sb.List) && sb.List[sb.Pos] != log[0] {
 					r.e.fail("C17-rr-not-in-rotation", fmt.Sprintf("round robin picked %q, cursor pointed at %q", log[0], sb.List[sb.Pos]), r.replay())
 				}
+				// any n consecutive picks under an unchanged set of n live targets are n different targets
+				set := append([]string(nil), sb.List...)
+				sort.Strings(set)
+				if key := strings.Join(set, ","); key != r.rrSet {
+					r.rrSet, r.rrPicks = key, nil
+				}
+				r.rrPicks = append(r.rrPicks, log[0])
+				if n := len(set); len(r.rrPicks) >= n {
+					seen := map[string]bool{}
+					for _, a := range r.rrPicks[len(r.rrPicks)-n:] {
+						if seen[a] {
+							r.e.fail("C17-rr-window-repeats", fmt.Sprintf("round robin over the unchanged live set %v: the last %d picks %v repeat a target", set, n, r.rrPicks[len(r.rrPicks)-n:]), r.replay())
+						}
+						seen[a] = true
+					}
+				}
 			case rpc.LeastTimeScheduling:
 				if !probe {
 					min := int64(1) << 62
@@ -407,7 +436,13 @@ func runLB(work, prop string) {
 	scheds := []rpc.Scheduling{rpc.RoundRobinScheduling, rpc.RandomScheduling, rpc.LeastTimeScheduling}
 	for i := 0; i < n; i++ {
 		r := newLBRun(e, scheds[i%3])
-		r.script()
+		if i%4 == 3 || (prop == "C17" && i%2 == 1) {
+			// many live targets: deep heap nodes, long rotations
+			r = newLBRunN(e, scheds[(i/2)%3], 6+e.Rng.Intn(4))
+			r.scriptFull()
+		} else {
+			r.script()
+		}
 		cases = append(cases, r.cases...)
 		e.count("history", fmt.Sprintf("%s-%s", schedCoq[r.sched], strings.Join(lbShape(r.trace), ",")))
 		if len(e.Res.Samples) < 4 {
@@ -417,6 +452,8 @@ func runLB(work, prop string) {
 	cases = append(cases, lbFunctionCases(e)...)
 	if prop == "C18" {
 		lbTimeoutScenario(e)
+		cases = append(cases, lbFallbackScenario(e)...)
+		lbCloseStress(e)
 	}
 	e.Res.Rule = "seeded random histories over a Client with an instrumented RoundTripper: Update with overlapping/duplicate/empty target lists, gated detector checks released with scripted health (current and stale generations), calls under the three scheduling policies (Director empty/listed/unlisted), callers that wait and are woken, probe clock backdating, Close; every operation is one model step from the snapshot before to the snapshot after; plus function-level cases for target.Update (EWMA) and minHeap; non-trivial = distinct (policy, operation-shape sequence)"
 	names := writeCases(work, "From Coq Require Import List ZArith. Import ListNotations. From RPC Require Import RunLB. From RPC.LB Require Import Model. Open Scope Z_scope.", "anycase", cases, 200)
@@ -494,6 +531,75 @@ func (r *lbRun) script() {
 			r.trace = append(r.trace, "AdvanceProbeClock")
 		default:
 			r.close()
+		}
+	}
+	if !r.closed {
+		r.close()
+	}
+}
+
+// scriptFull: every target of a larger list is brought up first, then calls are routed while per-target
+// latencies change, probes are forced and targets fail: the heap gets deep nodes that become the minimum,
+// the rotation gets long.
+func (r *lbRun) scriptFull() {
+	e := r.e
+	all := append([]string(nil), r.addrs...)
+	e.Rng.Shuffle(len(all), func(i, j int) { all[i], all[j] = all[j], all[i] })
+	for _, a := range all {
+		r.rt.health[a] = true
+	}
+	r.update(all)
+	for guard := 0; guard < 200 && r.anyDead(); guard++ {
+		deadline := time.Now().Add(400 * time.Millisecond)
+		for len(r.rt.pingGate.list()) == 0 && time.Now().Before(deadline) {
+			time.Sleep(2 * time.Millisecond)
+		}
+		r.settle()
+		if ps := r.rt.pingGate.list(); len(ps) > 0 {
+			r.checkRet(ps[0])
+		}
+	}
+	delays := []time.Duration{0, 60 * time.Microsecond, 250 * time.Microsecond, 900 * time.Microsecond}
+	for _, a := range all {
+		r.rt.delay[a] = delays[1+e.Rng.Intn(3)]
+	}
+	steps := 25 + e.Rng.Intn(30)
+	for s := 0; s < steps && !r.closed; s++ {
+		// now and then give the detector's next tick time to spawn a check for a dead target
+		if len(r.rt.pingGate.list()) == 0 && e.Rng.Intn(3) == 0 && r.anyDead() {
+			deadline := time.Now().Add(150 * time.Millisecond)
+			for len(r.rt.pingGate.list()) == 0 && time.Now().Before(deadline) {
+				time.Sleep(2 * time.Millisecond)
+			}
+		}
+		r.settle()
+		x := e.Rng.Intn(100)
+		pings := r.rt.pingGate.list()
+		switch {
+		case x < 25 && len(pings) > 0:
+			r.checkRet(pings[e.Rng.Intn(len(pings))])
+		case x < 65:
+			if len(r.waiting) < 3 {
+				r.route()
+			}
+		case x < 80:
+			a := all[e.Rng.Intn(len(all))]
+			d := delays[e.Rng.Intn(len(delays))]
+			r.rt.mu.Lock()
+			r.rt.delay[a] = d
+			r.rt.mu.Unlock()
+			r.trace = append(r.trace, fmt.Sprintf("Delay %s=%v", a, d))
+		case x < 90:
+			r.c.VerifBackdateProbe(2 * time.Hour)
+			r.trace = append(r.trace, "AdvanceProbeClock")
+		case x < 97:
+			a := all[e.Rng.Intn(len(all))]
+			r.rt.mu.Lock()
+			r.rt.health[a] = !r.rt.health[a]
+			r.rt.mu.Unlock()
+			r.trace = append(r.trace, "Flip "+a)
+		default:
+			r.update(all[:1+e.Rng.Intn(len(all))])
 		}
 	}
 	if !r.closed {
